@@ -7,13 +7,17 @@
    (S) Type* then  SetStringStrict, SetString (lenient), validator rules t_addr_eoa / t_addr_score / t_addr,
        and when the strict parser accepted:  String(), Bytes(), SetBytes(Bytes())
    (B) PushByte* then  SetBytes, String(), SetStringStrict(String()), Bytes()
+   (CA/CC) PushByte* then NewAccountAddress / NewContractAddress of these id bytes (short ids are left-padded
+       with zeros, long ones cut), IsContract, String, SetStringStrict, Bytes, SetBytes, Equal against the same /
+       other type / other id / nil address, and the codec (RLP) form
+   (N) the nil address: Equal(nil, nil) and its codec form (the nil item, not 21 zero bytes)
    Characters are classes:
      "c" "h" "x"   the letters of the prefixes (c is also a hex digit)
      "z" = 0, "1" = 1, "d" = 2..9, "a" = a b d e f           lower-case hex digits
      "C" = C, "A" = A B D E F                                upper-case hex digits
      "g" = other lower-case letters, "G" = other upper-case letters (incl. H X), "_" = anything else (ASCII)
    A byte is a pair of lower-case hex digit classes (<<"z","z">> = 00, <<"z","1">> = 01). *)
-EXTENDS Integers, Sequences, FiniteSets, TLC
+EXTENDS RlpGrammar
 CONSTANTS L,          \* id length in bytes
           MaxStr,     \* longest typed string
           MaxBytes,   \* longest byte string
@@ -32,7 +36,7 @@ B0 == <<"z", "z">>
 B1 == <<"z", "1">>
 None == [set |-> FALSE, contract |-> FALSE, id |-> <<>>]
 
-VARIABLES fam,    \* "" | "S" | "B"
+VARIABLES fam,    \* "" | "S" | "B" | "CA" | "CC" | "N"
           pc,     \* 0 while the input is assembled, then the index of the next call of the pipeline
           str,    \* text (character classes)
           byt,    \* byte string (pairs of hex digit classes)
@@ -42,10 +46,15 @@ vars == <<fam, pc, str, byt, addr, hist>>
 
 PipeS == <<"strict", "lenient", "veoa", "vscore", "vaddr", "print", "bytes", "frombytes">>
 PipeB == <<"frombytes", "print", "strict", "bytes">>
-Pipe == IF fam = "B" THEN PipeB ELSE PipeS
+PipeC == <<"new", "iscontract", "print", "strict", "bytes", "frombytes", "eq_same", "eq_type", "eq_id", "eq_nil", "codec">>
+PipeN == <<"eq_nilnil", "codec">>
+Pipe == CASE fam = "B" -> PipeB [] fam \in {"CA", "CC"} -> PipeC [] fam = "N" -> PipeN [] OTHER -> PipeS
+ByteFams == {"B", "CA", "CC"}
 At(call) == pc >= 1 /\ pc <= Len(Pipe) /\ Pipe[pc] = call
 \* calls on the Address object need one
-NeedsAddr(call) == call \in {"print", "bytes"} \/ (fam = "S" /\ call = "frombytes") \/ (fam = "B" /\ call = "strict")
+NeedsAddr(call) == \/ call \in {"print", "bytes", "iscontract", "eq_same", "eq_type", "eq_id", "eq_nil"}
+                   \/ (fam \in {"S", "CA", "CC"} /\ call = "frombytes") \/ (fam \in ByteFams /\ call = "strict")
+                   \/ (fam \in {"CA", "CC"} /\ call = "codec")
 
 ----------------------------------------------------------------------------
 (* decisions *)
@@ -86,6 +95,16 @@ FromBytes(bs) ==
   ELSE [ok |-> FALSE, contract |-> FALSE, off |-> 0, id |-> <<>>]
 ToBytes(a) == <<IF a.contract THEN B1 ELSE B0>> \o Pairs(a.id)
 Show(a) == <<IF a.contract THEN "c" ELSE "h", "x">> \o a.id
+\* NewAccountAddress / NewContractAddress (SetTypeAndID): short ids are left-padded with zero bytes, long ids cut
+FromID(ic, bs) == LET n == Len(bs) IN
+  [set |-> TRUE, contract |-> ic,
+   id |-> IF n < L THEN Zeros(2 * (L - n)) \o Flatten(bs) ELSE Flatten(SubSeq(bs, 1, L))]
+\* Equal: same type and id; nil equals only nil
+EqualModel(a, b) == a.set = b.set /\ (a.set => (a.contract = b.contract /\ a.id = b.id))
+Other(a, v) == CASE v = "eq_same" -> a
+                 [] v = "eq_type" -> [a EXCEPT !.contract = ~@]
+                 [] v = "eq_id" -> [a EXCEPT !.id[2 * L] = IF @ = "z" THEN "1" ELSE "z"]
+                 [] OTHER -> None
 
 ----------------------------------------------------------------------------
 Init == fam = "" /\ pc = 0 /\ str = <<>> /\ byt = <<>> /\ addr = None /\ hist = <<>>
@@ -105,8 +124,10 @@ PushByte(b) == /\ fam \in {"", "B"} /\ pc = 0 /\ Len(byt) < MaxBytes
                /\ fam' = "B" /\ byt' = Append(byt, b)
                /\ UNCHANGED <<pc, str, addr, hist>>
 \* the caller starts calling
-Start(f) == /\ pc = 0 /\ fam \in {"", f}
-            /\ IF f = "B" THEN Len(byt) \in CallBLens ELSE Len(str) \in CallLens
+Start(f) == /\ pc = 0
+            /\ IF f \in ByteFams THEN fam \in {"", "B"} /\ Len(byt) \in CallBLens /\ (f = "B" \/ Len(byt) <= L + 2)
+               ELSE IF f = "N" THEN fam = ""
+               ELSE fam \in {"", "S"} /\ Len(str) \in CallLens
             /\ pc' = 1 /\ fam' = f
             /\ UNCHANGED <<str, byt, addr, hist>>
 
@@ -148,15 +169,41 @@ FromBytesCall ==
              same |-> addr.set /\ r.ok /\ r.contract = addr.contract /\ r.id = addr.id])
   /\ Adv /\ UNCHANGED <<fam, str, byt>>
 
+NewCall ==
+  /\ At("new")
+  /\ LET a == FromID(fam = "CC", byt) IN
+     /\ addr' = a
+     /\ Log([op |-> "new", bytes |-> byt, contract |-> fam = "CC",
+             pad |-> IF Len(byt) < L THEN L - Len(byt) ELSE 0, take |-> IF Len(byt) < L THEN Len(byt) ELSE L])
+  /\ Adv /\ UNCHANGED <<fam, str, byt>>
+IsContractCall ==
+  /\ At("iscontract") /\ addr.set
+  /\ Log([op |-> "iscontract", contract |-> addr.contract])
+  /\ Adv /\ UNCHANGED <<fam, str, byt, addr>>
+EqualCall(v) ==
+  /\ At(v) /\ (v # "eq_nilnil" => addr.set)
+  /\ Log([op |-> "equal", with |-> v, ok |-> EqualModel(addr, Other(addr, v))])
+  /\ Adv /\ UNCHANGED <<fam, str, byt, addr>>
+\* codec.Marshal of the *Address: a byte string of L+1 bytes, or the nil item for a nil address
+CodecCall ==
+  /\ At("codec") /\ (NeedsAddr("codec") => addr.set)
+  /\ Log([op |-> "codec", nil |-> ~addr.set,
+          stream |-> Enc(IF addr.set THEN BytesItem(L + 1, "x") ELSE NilItem)])
+  /\ Adv /\ UNCHANGED <<fam, str, byt, addr>>
+
 Next == \/ \E c \in Chars : Type(c)
         \/ \E b \in ByteSet \cup {FillB(Len(byt))} : PushByte(b)
-        \/ \E f \in {"S", "B"} : Start(f)
+        \/ \E f \in {"S", "B", "CA", "CC", "N"} : Start(f)
         \/ Strict
         \/ LenientCall
         \/ \E rule \in {"veoa", "vscore", "vaddr"} : Validate(rule)
         \/ PrintCall
         \/ BytesCall
         \/ FromBytesCall
+        \/ NewCall
+        \/ IsContractCall
+        \/ \E v \in {"eq_same", "eq_type", "eq_id", "eq_nil", "eq_nilnil"} : EqualCall(v)
+        \/ CodecCall
 Spec == Init /\ [][Next]_vars
 \* the pipeline is finished (or the next call needs an address that was not accepted)
 Complete == pc >= 1 /\ (pc > Len(Pipe) \/ (NeedsAddr(Pipe[pc]) /\ ~addr.set))
@@ -165,7 +212,7 @@ Complete == pc >= 1 /\ (pc > Len(Pipe) \/ (NeedsAddr(Pipe[pc]) /\ ~addr.set))
 (* Properties (C36) *)
 Last == hist[Len(hist)]
 Done(call) == pc >= 2 /\ Pipe[pc - 1] = call
-TypeOK == /\ fam \in {"", "S", "B"} /\ pc \in 0..(Len(Pipe) + 1)
+TypeOK == /\ fam \in {"", "S", "B", "CA", "CC", "N"} /\ pc \in 0..(Len(Pipe) + 1)
           /\ addr.set => Len(addr.id) = 2 * L /\ \A i \in 1..(2 * L) : addr.id[i] \in LowerHex
 \* the strict parser and the validator rule t_addr accept exactly the same strings, and exactly the printed
 \* form of some address: printing the parsed address gives the string back
@@ -185,9 +232,21 @@ RoundTrips ==
   /\ (Done("print") /\ fam = "S") => Last.same
   /\ (Done("frombytes") /\ fam = "S") => Last.same
   /\ (Done("bytes") /\ fam = "B" /\ Len(hist[1].bytes) = L + 1) => Last.same
-  /\ (Done("strict") /\ fam = "B") => Last.ok
+  /\ (Done("strict") /\ fam \in ByteFams) => Last.ok
+  /\ (Done("frombytes") /\ fam \in {"CA", "CC"}) => Last.same
   /\ (Done("lenient") /\ addr.set) => Last.same
 \* byte form: accepted iff L bytes, or L+1 bytes starting with the type byte 0 or 1
+\* Equal agrees with the byte form: two addresses are equal iff their L+1 byte forms are equal; a nil address
+\* equals only nil; its codec form (nil item) differs from the form of every address, in particular of the zero one
+EqualIsBytes == addr.set =>
+  /\ \A v \in {"eq_same", "eq_type", "eq_id"} :
+        EqualModel(addr, Other(addr, v)) <=> (ToBytes(addr) = ToBytes(Other(addr, v)))
+  /\ ~EqualModel(addr, None) /\ EqualModel(None, None)
+  /\ Enc(BytesItem(L + 1, "x")) # Enc(NilItem)
+\* constructors: the id always has L bytes, the type is the one asked for, and L-byte ids are taken as they are
+Constructed == (Done("new")) =>
+  /\ addr.set /\ Len(addr.id) = 2 * L /\ addr.contract = (fam = "CC")
+  /\ Len(byt) = L => addr.id = Flatten(byt)
 BytesDecision == (fam = "B" /\ pc = 0) =>
   (FromBytes(byt).ok <=> (Len(byt) = L \/ (Len(byt) = L + 1 /\ byt[1] \in {B0, B1})))
 =============================================================================
